@@ -303,7 +303,26 @@ def rule_branch_select(ctx):
     ctx.floor(R, "crashing_thread_context stores", n, 2)
 
 
+def rule_context_before_record(ctx, R="C05/context-recorded-first"):
+    """`points at a CPU context ... the blamed thread's thread-list entry uses the same context`: the exception stream reads what the
+    thread-list stream recorded in `crashing_thread_context`.  In generate_dump the exception stream is written only on paths where
+    thread_list_stream::write returned Ok (today: its `?`); a thread-list failure that is survived — demoted to a soft error, say —
+    would leave an exception record pointing at no context in a dump that reports success."""
+    b = ctx.body(R, "linux::minidump_writer::MinidumpWriter::generate_dump")
+    if b is None:
+        return
+    o = Origin(b)
+    calls = list(b.calls(lambda c: (c.short or "").endswith("exception_stream::write")))
+    ctx.floor(R, "exception_stream::write in generate_dump", len(calls), 1)
+    for k, (x, t) in enumerate(calls):
+        dnf = conditions(b, x, origin=o, relevant=lambda a: a[0] == "discr" and any(q[0] == "call" and q[1].endswith("thread_list_stream::write") for q in walk(a)))
+        ok = bool(dnf) and all(any(v == 0 and strip(a[1])[0] in ("call", "try") and (strip(a[1])[1].endswith("thread_list_stream::write") if strip(a[1])[0] == "call" else True) for (a, v) in c) for c in dnf)
+        ctx.check(ok, R, ("exception-after-thread-list-ok", k + 1), b.where(x), "the exception stream is written only after thread_list_stream::write returned Ok",
+                  "the exception stream can be written although thread_list_stream::write failed (its error is survived): the record then points at no CPU context and no thread-list entry shares it")
+
+
 def run(ctx):
+    rule_context_before_record(ctx)
     rule_greg_map(ctx)
     rule_exception_record(ctx)
     rule_same_context(ctx)
@@ -336,3 +355,6 @@ def run(ctx):
     # the small accessors and pass-through wrappers the rules above look through by name return what their names say (rules/accessors.py)
     from rules import accessors as _acc
     _acc.rule_accessors(ctx, "C05")
+    # the stream this property talks about is all-or-nothing: generate_dump succeeds only if its writer returned Ok (rules/c01.py rule_hard_streams)
+    from rules import c01 as _c01h
+    _c01h.rule_hard_streams(ctx, R="C05/hard-streams", only=('thread_list_stream::write', 'exception_stream::write'))
